@@ -8,9 +8,20 @@ import (
 	"bufio"
 	"fmt"
 	"io"
+	"net"
 	"strconv"
 	"strings"
+	"time"
 )
+
+// vrespServerConn is the server end handed to handleConn: the gateway's 5-minute idle
+// read deadline is a wall-clock behaviour outside the properties checked here, and a
+// suspended sandbox would fire it spuriously, so deadlines are ignored.
+type vrespServerConn struct{ net.Conn }
+
+func (vrespServerConn) SetDeadline(time.Time) error      { return nil }
+func (vrespServerConn) SetReadDeadline(time.Time) error  { return nil }
+func (vrespServerConn) SetWriteDeadline(time.Time) error { return nil }
 
 // vrespEncode renders a command as a RESP array of bulk strings.
 func vrespEncode(args []string) []byte {
